@@ -192,14 +192,15 @@ def run(ctx):
     _page_cursor(ctx, rn)
     # set-form update in the batch reader's zero-copy branch
     bn = P.fn("carquet_batch_reader_next", BR)
-    sets = [a for a in bn.body.walk() if is_assign(a) and a.op == "=" and a.c[0].strip().k == "MemberExpr"
+    bnv = P.inlined(bn, 2)       # the zero-copy arm may live in a static helper: its guard is then the caller's
+    sets = [a for a in bnv.body.walk() if is_assign(a) and a.op == "=" and a.c[0].strip().k == "MemberExpr"
             and a.c[0].strip().name == "page_values_read"]
     for a in sets:
         guard_ok = False
         for anc in a.ancestors():
             if anc.k == "IfStmt":
                 c = [x for x in anc.c if x is not None][0]
-                t = Canon(bn)(c)
+                t = Canon(bnv)(c)
                 for s in subtrees(t):
                     if s[0] == "bin" and s[1] == "==" and ("int", 0) in (s[2], s[3]) and \
                             any(isinstance(x, tuple) and x[0] == "member" and x[2] == "page_values_read" for x in (s[2], s[3])):
@@ -242,10 +243,14 @@ def run(ctx):
         ctx.ob("R5.siblings", "bitmap-polarity|%s:%s" % (P.rel(fn.file), fn.name), P.where(n),
                "null bit is set iff def_level < max_def_level", ok, src(cond))
     # zero-copy branch: calloc'ed bitmap
-    zc = [a for a in bn.body.walk() if is_assign(a) and a.c[0].strip().k == "MemberExpr" and a.c[0].strip().name == "null_bitmap"]
-    okz = bool(zc) and all(a.c[1].strip_casts().k == "CallExpr" and a.c[1].strip_casts().callee == "calloc" for a in zc)
+    # (wherever in the file the bitmap member is set: in next() itself or in a helper it calls)
+    zc = [(f_, a) for f_ in P.funcs_in(BR) for a in f_.body.walk()
+          if is_assign(a) and a.c[0].strip().k == "MemberExpr" and a.c[0].strip().name == "null_bitmap"]
+    okz = bool(zc) and all(a.c[1].strip_casts().k == "CallExpr" and a.c[1].strip_casts().callee == "calloc" or a.c[1].strip_casts().cv == 0
+                           for f_, a in zc) and any(a.c[1].strip_casts().k == "CallExpr" for f_, a in zc)
     ctx.ob("R5.siblings", "bitmap-zero|%s:carquet_batch_reader_next" % BR, P.where(bn.body),
-           "every null bitmap starts zeroed (calloc): REQUIRED columns report no nulls", okz)
+           "every null bitmap starts zeroed (calloc): REQUIRED columns report no nulls", okz,
+           "; ".join("%s: %s" % (f_.name, src(a)[:60]) for f_, a in zc))
 
 
 def _names_assigned_from(fn, callee):
